@@ -111,7 +111,13 @@ class InMemoryObjectStore(BaseObjectStore):
             raise ValueError(
                 f'Name "{name}" already in {self._cim_object_type} '
                 'object store')
-        # Add with deepcopy to completely isolate the copy in the repository
+        # Add with deepcopy to completely isolate the copy in the repository.
+        # This includes the name if it is a mutable object (i.e. the
+        # CIMInstanceName of an instance): The caller may hand the same path
+        # object out to the client, and a later modification of that object
+        # must not change the key in the repository.
+        if self._copy_names:
+            name = deepcopy(name)
         self._data[name] = deepcopy(cim_object)
 
     def update(self, name, cim_object):
